@@ -209,3 +209,19 @@ Theorem C14_history_never_selected :
   In cb (snd (findCallbacksForArgs E strs)) -> last (fst (findCallbacksForArgs E strs)) [] <> x.
 Proof. exact history_never_selected. Qed.
 Print Assumptions C14_history_never_selected.
+
+(* The table built when the bot starts (DisabledCommands.__init__ over supybot.commands.disabled, whose entries the
+   registry keeps canonical: 'misc.ping') disables (c, p) iff some entry names the command and, if it has a plugin part,
+   the plugin -- both compared after canonicalName.  So a per-plugin entry written as 'misc.ping' disables the ping of
+   the plugin whose class name is 'Misc', which is how Commands.isDisabled asks. *)
+Theorem C14_startup_table :
+  forall conf c p, dis_disabled (dis_of_conf conf) c p = existsb (fun name => entry_disables name c p) conf.
+Proof. exact startup_table. Qed.
+Print Assumptions C14_startup_table.
+
+(* A per-plugin entry answers for every spelling of the plugin name with the same canonical form, whichever spelling
+   was stored (live `disable Misc ping` stores the class name, a restart stores 'misc'). *)
+Theorem C14_plugin_name_canonical :
+  forall d c p p', canon p = canon p' -> dis_disabled (dis_add d c (Some p)) c p' = true.
+Proof. exact plugin_name_canonical. Qed.
+Print Assumptions C14_plugin_name_canonical.
